@@ -48,8 +48,8 @@ theorem save_overrides (now : Time) (accounts : Ledger.Base.Map String Account) 
     exact ⟨_, get?_insert_self _ _ _, rfl⟩
 
 /-- A delete removes exactly that key of that account. -/
-theorem delete_removes_key (d : Db) (a key : String) (acc : Account) (hex : d.accounts.get? a = some acc) :
-    ∃ acc', (deleteAccountMeta a key d).accounts.get? a = some acc' ∧ acc'.metadata = acc.metadata.erase key := by
+theorem delete_removes_key (now : Time) (d : Db) (a key : String) (acc : Account) (hex : d.accounts.get? a = some acc) :
+    ∃ acc', (deleteAccountMeta now a key d).accounts.get? a = some acc' ∧ acc'.metadata = acc.metadata.erase key := by
   unfold deleteAccountMeta
   simp only [hex]
   exact ⟨_, get?_insert_self _ _ _, rfl⟩
